@@ -31,12 +31,16 @@ def shards(tier, seed):
     for i in range(4):
         out.append({'name': 'h%d' % i, 'what': 'header',
                     'n': 1500 if tier == 'quick' else 40000})
-    return out
+    cfgs = [common.W_ERROR, common.LOG_DEBUG]
+    return common.with_configs(out, cfgs, take=12) + \
+        common.with_configs(out[12:13], cfgs, take=1)[1:]
 
 
 def cases(shard, rnd):
     if shard['what'] == 'method':
         for idx in shard['indexes']:
+            if common.skip_under_config(idx):
+                continue
             spec = refspec.METHODS[idx]
             has_table = 'table' in spec.arg_types
             for k in range(shard['per'] * (4 if has_table else 1)):
@@ -134,11 +138,14 @@ def _crosscheck(fr):
 
 def run_case(fr, rec):
     if isinstance(fr, dict):                 # replayed case
+        common.replay_history(fr.get('prefix'))
         fr = _from_replay(fr)
     rec.ev()
     _crosscheck(fr)
     data = bytes(fr.data)
-    case = {'wire': data, 'kind': fr.kind, 'name': fr.name}
+    case = common.H({'wire': data, 'kind': fr.kind, 'name': fr.name})
+    common.disturb_decoder(data, common.RND, 2)
+    rec.count('failed_decodes_interleaved', 2)
     u = common.lib_unmarshal(data)
     for t in fr.tags:
         rec.seen('tags', t.decode('latin1') if t != b'\x00' else 'NUL')
